@@ -576,7 +576,17 @@ def msE_case(rng, i, tmp, ctx):
     reps = [{'stem': 'ensr%d' % k, 'recs': [{'cfg': cfg, 'p': [[rat(x) for x in row] for row in p[blk]]} for cfg, p in replicas[k]]} for k in idxs]
     cid = 'msE-%04d-r%s-x%d-T%d-%s-%s%s' % (i, '_'.join(map(str, idxs)), xmin, tmax, 'plaq' if plaq else 'clover', sel['k'], '-shuf' if shuffle else '')
     ctx.nontrivial.add(('msE', tuple(idxs), xmin, plaq, sel['k'], shuffle))
-    return [{'id': cid, 'ev': 'read', 'fmt': 'msE', 'reps': reps, 'par': {'xmin': xmin, 'L': L}, 'sel': sel, 'res': res_series(objs)}]
+    cases = [{'id': cid, 'ev': 'read', 'fmt': 'msE', 'reps': reps, 'par': {'xmin': xmin, 'L': L}, 'sel': sel, 'res': res_series(objs)}]
+    if sel['k'] == 'all' and i % 2 == 0:
+        # history: the same unchanged files are read again and again in one process while the keyword that keeps the configuration numbers of the
+        # file (no shift to 1) comes and goes - every read is judged on its own
+        for j, th in enumerate(('F', 'D', 'F')):
+            kw2 = dict(kw, assume_thermalization=False) if th == 'F' else dict(kw)
+            r2 = quiet(lambda: pe.input.openQCD._extract_flowed_energy_density(d, 'ens', 1, xmin, L, **kw2))
+            objs2 = r2 if isinstance(r2, Exception) else [r2[t] for t in sorted(r2)]
+            par2 = {'xmin': xmin, 'L': L, 'nothermal': 1} if th == 'F' else {'xmin': xmin, 'L': L}
+            cases.append({'id': '%s-again%d%s' % (cid, j + 1, th), 'ev': 'read', 'fmt': 'msE', 'reps': reps, 'par': par2, 'sel': sel, 'res': res_series(objs2)})
+    return cases
 
 
 def mst0_case(rng, i, tmp, ctx):
